@@ -48,14 +48,14 @@ func merkle8(leaves ...[32]byte) [32]byte {
 
 // Att is an attestation request's data.
 type Att struct {
-	Slot       uint64 `json:"slot"`
-	Index      uint64 `json:"index"`
-	BlockRoot  []byte `json:"block_root"`
-	SrcEpoch   uint64 `json:"src"`
-	SrcRoot    []byte `json:"src_root"`
-	TgtEpoch   uint64 `json:"tgt"`
-	TgtRoot    []byte `json:"tgt_root"`
-	Domain     []byte `json:"domain"`
+	Slot      uint64 `json:"slot"`
+	Index     uint64 `json:"index"`
+	BlockRoot []byte `json:"block_root"`
+	SrcEpoch  uint64 `json:"src"`
+	SrcRoot   []byte `json:"src_root"`
+	TgtEpoch  uint64 `json:"tgt"`
+	TgtRoot   []byte `json:"tgt_root"`
+	Domain    []byte `json:"domain"`
 }
 
 // Prop is a proposal request's data.
